@@ -12,6 +12,7 @@ import (
 	"sync"
 	"sync/atomic"
 	"time"
+	"verifharness/internal/ref/par2rw"
 
 	"github.com/akalin/gopar/gf2p16"
 	"github.com/akalin/gopar/par2"
@@ -27,18 +28,23 @@ import (
 type c12 struct{ base }
 
 type c12Params struct {
-	Mode     string `json:"mode"` // coder | create | cores
-	Lens     []int  `json:"lens,omitempty"`
-	Workers  []int  `json:"workers,omitempty"`
-	Procs    int    `json:"procs,omitempty"`
-	Seed     int64  `json:"seed"`
-	Repeats  int    `json:"repeats,omitempty"`
+	Mode    string `json:"mode"` // coder | create | cores
+	Lens    []int  `json:"lens,omitempty"`
+	Workers []int  `json:"workers,omitempty"`
+	Procs   int    `json:"procs,omitempty"`
+	Seed    int64  `json:"seed"`
+	Repeats int    `json:"repeats,omitempty"`
 	// D is the number of data shards (default 3).
-	D int `json:"d,omitempty"`
-	RaceMode bool   `json:"race_mode,omitempty"`
+	D        int  `json:"d,omitempty"`
+	RaceMode bool `json:"race_mode,omitempty"`
 	// Dup: "yes" forces files that share leading slices (and at least three
 	// files, so two scanners meet on the same bookkeeping), "" draws it.
 	Dup string `json:"dup,omitempty"`
+	// Bogus: the recovery block with the highest exponent (not needed for the
+	// repair) gets a wrong payload under a valid packet hash, and every
+	// Repair runs with the double check on: it has to fail the same way for
+	// every goroutine option.
+	Bogus bool `json:"bogus,omitempty"`
 }
 
 func init() {
@@ -120,7 +126,7 @@ func (c *c12) Cases(tier string, seed int64) []core.Case {
 		n = 60
 	}
 	for i := 0; i < n; i++ {
-		cs = append(cs, core.MkCase(fmt.Sprintf("create-%d", i), c12Params{Mode: "create", Seed: r.Int63(), Dup: map[bool]string{true: "yes"}[i%4 == 0]}))
+		cs = append(cs, core.MkCase(fmt.Sprintf("create-%d", i), c12Params{Mode: "create", Seed: r.Int63(), Dup: map[bool]string{true: "yes"}[i%4 == 0], Bogus: i%4 == 2}))
 	}
 	cs = append(cs, core.MkCase("cores-unknown", c12Params{Mode: "cores", Seed: r.Int63()}))
 	return cs
@@ -468,6 +474,9 @@ func (c *c12) runCreate(r *core.R, p c12Params) {
 		nf = 3 + rng.Intn(3)
 	}
 	set := scen.Set{SliceSize: slice, Blocks: 1 + rng.Intn(6)}
+	if p.Bogus {
+		set.Blocks = 12
+	}
 	for i := 0; i < nf; i++ {
 		n := scen.SizeAround(rng, slice, false)
 		set.Files = append(set.Files, scen.File{Name: scen.GenName(rng, i, true, true), Data: scen.GenData(rng, "random", n, slice)})
@@ -519,13 +528,16 @@ func (c *c12) runCreate(r *core.R, p c12Params) {
 		} else if d := scen.DiffSnap(refSnap, snap); len(d) > 0 {
 			r.Violate("create-output-depends-on-goroutines", "Create output differs between g=%d and g=%d (slice=%d blocks=%d): %v", gs[0], g, slice, set.Blocks, d)
 		}
+		if p.Bogus {
+			c12SpoilHighestBlock(dir)
+		}
 		// Damage: remove the first file and repair with this g.
 		os.Remove(paths[0])
 		c12rec.begin(uint64(p.Seed) ^ uint64(g) ^ 77)
 		var rerr error
 		var res par2.RepairResult
 		if pi := core.Protect(func() {
-			res, rerr = par2.Repair(filepath.Join(dir, "set.par2"), par2.RepairOptions{NumGoroutines: g, DoubleCheck: g%2 == 0})
+			res, rerr = par2.Repair(filepath.Join(dir, "set.par2"), par2.RepairOptions{NumGoroutines: g, DoubleCheck: g%2 == 0 || p.Bogus})
 		}); pi != nil {
 			r.Violate("repair-panic|"+pi.Frame, "Repair g=%d: %s", g, pi.Msg)
 			return
@@ -551,6 +563,44 @@ func (c *c12) runCreate(r *core.R, p c12Params) {
 }
 
 var refRepairKey string
+
+// c12SpoilHighestBlock rewrites the recovery packet with the highest
+// exponent found in dir with a different payload and a fresh packet hash.
+func c12SpoilHighestBlock(dir string) {
+	ents, _ := os.ReadDir(dir)
+	best, bestFile, bestIdx := -1, "", -1
+	parsed := map[string][]par2rw.Packet{}
+	for _, e := range ents {
+		if !strings.HasSuffix(e.Name(), ".par2") {
+			continue
+		}
+		b, err := os.ReadFile(filepath.Join(dir, e.Name()))
+		if err != nil {
+			continue
+		}
+		pk, err := par2rw.ParseStrict(b)
+		if err != nil {
+			continue
+		}
+		parsed[e.Name()] = pk
+		for i := range pk {
+			if pk[i].Type == par2rw.TypeRecv {
+				if rv, err := par2rw.DecodeRecv(pk[i].Body); err == nil && int(rv.Exp) > best {
+					best, bestFile, bestIdx = int(rv.Exp), e.Name(), i
+				}
+			}
+		}
+	}
+	if bestIdx < 0 {
+		return
+	}
+	pk := parsed[bestFile]
+	body := append([]byte(nil), pk[bestIdx].Body...)
+	body[len(body)-1] ^= 0x5a
+	body[4] ^= 0x11
+	pk[bestIdx].Body = body
+	os.WriteFile(filepath.Join(dir, bestFile), par2rw.Serialize(pk), 0644)
+}
 
 func (c *c12) runCores(r *core.R, p c12Params) {
 	old := cpuid.CPU.PhysicalCores
